@@ -291,6 +291,11 @@ def _distributed_case(ck, M, mm, mininec3, gname, kind, loaded, order):
             m = catalogue.build(M, gname, f=f)
             lds = _mk_dist(M, m, kind, loaded, P)
             seq = [lds[loaded[k]] for k in order]
+            # the loads were evaluated at another (arbitrary) frequency before, as in every sweep step but the first
+            f0 = pos('f0', 0.1, 1000)
+            for ld in seq:
+                for p in ld.pulses:
+                    ld.impedance(f0, p)
             got = []
             for ld in seq:
                 for p in ld.pulses:
@@ -328,7 +333,7 @@ def _distributed_case(ck, M, mm, mininec3, gname, kind, loaded, order):
             for p in m.pulses:
                 wgt = (2.0 if (np.asarray(p.ground).any() and m.media is not None) else 1.0) / m.m
                 dref.append(ref_of(p) * SC(0.0, -1.0) * wgt)
-        inp = dict(f=f, sigma1=P['sigma'][0], sigma2=P['sigma'][1], rho1=P['rho'][0], rho2=P['rho'][1], eps1=P['eps'][0], eps2=P['eps'][1])
+        inp = dict(f=f, f0=f0, sigma1=P['sigma'][0], sigma2=P['sigma'][1], rho1=P['rho'][0], rho2=P['rho'][1], eps1=P['eps'][0], eps2=P['eps'][1])
         return dict(inputs=inp, got=got, ref=ref, diag=diag, dref=dref)
 
     def goals(o):
@@ -344,6 +349,9 @@ def _distributed_case(ck, M, mm, mininec3, gname, kind, loaded, order):
         P = dict(sigma=[c['sigma1'], c['sigma2']], rho=[c['rho1'], c['rho2']], eps=[c['eps1'], c['eps2']], insr=insr)
         m = catalogue.build(mm, gname, f=c['f'])
         lds = _mk_dist(mm, m, kind, loaded, P)
+        for ld in [lds[loaded[k]] for k in order]:
+            for p in ld.pulses:
+                ld.impedance(float(c.get('f0', 1.0)), p)
         omg = 2 * math.pi * c['f'] * 1e6
         from refmodels import mininec3 as m3
         for ld in [lds[loaded[k]] for k in order]:
